@@ -1,0 +1,58 @@
+//go:build verif
+
+package datastore
+
+import (
+	"context"
+	"sync"
+
+	sdcpb "github.com/sdcio/sdc-protos/sdcpb"
+
+	"github.com/sdcio/data-server/pkg/cache"
+	"github.com/sdcio/data-server/pkg/config"
+	schemaClient "github.com/sdcio/data-server/pkg/datastore/clients/schema"
+	"github.com/sdcio/data-server/pkg/datastore/target"
+	"github.com/sdcio/data-server/pkg/datastore/types"
+	"github.com/sdcio/data-server/pkg/schema"
+)
+
+// VerifNew builds a Datastore exactly like New but with an injected southbound target,
+// without dialling the SBI and without starting the Sync / DeviationMgr goroutines.
+// The simulation harness starts those itself. Only compiled with build tag "verif".
+func VerifNew(ctx context.Context, c *config.DatastoreConfig, sc schema.Client, cc cache.Client, sbi target.Target) *Datastore {
+	ds := &Datastore{
+		config:                   c,
+		schemaClient:             schemaClient.NewSchemaClientBound(c.Schema.GetSchema(), sc),
+		cacheClient:              cc,
+		m:                        &sync.RWMutex{},
+		md:                       &sync.RWMutex{},
+		dmutex:                   &sync.Mutex{},
+		deviationClients:         make(map[string]sdcpb.DataServer_WatchDeviationsServer),
+		currentIntentsDeviations: make(map[string][]*sdcpb.WatchDeviationResponse),
+		sbi:                      sbi,
+	}
+	ds.transactionManager = types.NewTransactionManager(NewDatastoreRollbackAdapter(ds))
+	if c.Sync != nil {
+		ds.synCh = make(chan *target.SyncUpdate, c.Sync.Buffer)
+	}
+	_, cancel := context.WithCancel(ctx)
+	ds.cfn = cancel
+	ds.initCache(ctx)
+	return ds
+}
+
+// VerifTransactionManager exposes the transaction manager to the harness (read-only observers
+// and the rollbacker wrapper live in pkg/datastore/types).
+func (d *Datastore) VerifTransactionManager() *types.TransactionManager {
+	return d.transactionManager
+}
+
+// VerifSchemaClientBound exposes the bound schema client (used to build real targets around fakes).
+func (d *Datastore) VerifSchemaClientBound() schemaClient.SchemaClientBound {
+	return d.schemaClient
+}
+
+// VerifSetTarget swaps the southbound target (the harness builds real targets that need the bound schema client).
+func (d *Datastore) VerifSetTarget(t target.Target) {
+	d.sbi = t
+}
